@@ -16,7 +16,7 @@ THOROUGH = QUICK + [(1, 4, 3), (2, 4, 2), (2, 3, 3), (3, 3, 3), (3, 4, 2), (4, 3
 def describe(tier):
     cfg = QUICK if tier == "quick" else THOROUGH
     return {
-        "rule": "long family: N=18(24) rows, one dimension holding a contiguous run of 8..10(17) rows of one category and another with 1-2 sparse rows, both orders and a 3-dimension variant; and for each (D dims, N rows, E categories) in %r: every data vector over {0..E-1} per dimension and every common value in 0..E per "
+        "rule": "empty-entry family: 1..3 dimensions (2 rows) where one dimension additionally carries an explicitly empty entry - nothing may be presented for it; long family: N=18(24) rows, one dimension holding a contiguous run of 8..10(17) rows of one category and another with 1-2 sparse rows, both orders and a 3-dimension variant; and for each (D dims, N rows, E categories) in %r: every data vector over {0..E-1} per dimension and every common value in 0..E per "
         "dimension (E = absent); the log of (coords, rows) delivered to interactions() and to two callbacks of walk([f, g]) must equal, as a multiset, "
         "{(c, rows(c)) : c in prod(uncommon_d u {-1}) minus all -1, rows(c) non-empty}; each row array strictly increasing uint32. "
         "Non-trivial: D >= 2 and at least one expected combination mixing a marginal and an uncommon coordinate. Distinct = distinct (data, commons)." % (cfg,),
@@ -53,6 +53,7 @@ def long_cases(tier):
 def blocks(tier):
     cfg = QUICK if tier == "quick" else THOROUGH
     out = [("long", {"tier": tier, "i": i}) for i in range(len(long_cases(tier)))]
+    out += [("emptyentry", {"D": D, "pos": pos}) for D in (1, 2, 3) for pos in range(D)]
     for D, N, E in cfg:
         n0 = len(dim_opts(N, E))
         rest = n0 ** (D - 1)
@@ -109,7 +110,37 @@ def check(datas, commons, acc, case):
     return exp
 
 
+def check_with_empty_entry(datas, commons, pos, acc):
+    """One dimension additionally carries an explicitly EMPTY entry for a category no row holds: nothing may be presented for it."""
+    from catii.ccubes import ccube
+
+    dims = [M.build_index(numpy.array(t, dtype=numpy.int64), c) for t, c in zip(datas, commons)]
+    extra = max(max(datas[pos]) if datas[pos] else 0, commons[pos]) + 1
+    dims[pos][(extra,)] = numpy.array([], dtype=numpy.uint32)
+    case = {"data": [list(t) for t in datas], "commons": commons, "empty_entry": [pos, extra]}
+    exp = expected(datas, commons)
+    for name, run in (("interactions", lambda: ccube(dims).interactions()),):
+        try:
+            log = run()
+        except Exception as e:  # noqa
+            acc.violation("walk:raised", case, repr(e))
+            return exp
+        got = Counter((tuple(int(x) for x in c), tuple(numpy.asarray(r).tolist())) for c, r in log)
+        if got != exp:
+            acc.violation("walk:multiset", dict(case, via=name), "missing %r; unexpected/duplicated %r" % (sorted((exp - got).elements())[:6], sorted((got - exp).elements())[:6]))
+    return exp
+
+
 def run_block(family, p, acc):
+    if family == "emptyentry":
+        D, pos = p["D"], p["pos"]
+        opts = dim_opts(2, 2)
+        for combo in itertools.product(opts, repeat=D):
+            datas = [t for t, c in combo]
+            commons = [c for t, c in combo]
+            exp = check_with_empty_entry(datas, commons, pos, acc)
+            acc.case(("empty", pos, tuple(datas), tuple(commons)), nontrivial=D >= 2, outcome=("empty", D, len(exp)), sample={"data": [list(t) for t in datas], "commons": commons, "empty_entry_in_dim": pos})
+        return
     if family == "long":
         tier = p["tier"]
         N = LONG_N[tier]
@@ -137,7 +168,10 @@ def replay(case, site=None):
     from ..core import Acc
 
     acc = Acc(ID, [], stop_at_first=False)
-    check([tuple(t) for t in case["data"]], case["commons"], acc, case)
+    if case.get("empty_entry"):
+        check_with_empty_entry([tuple(t) for t in case["data"]], case["commons"], case["empty_entry"][0], acc)
+    else:
+        check([tuple(t) for t in case["data"]], case["commons"], acc, case)
     for v in acc.violations:
         print("  %s :: %s" % (v["site"], v["detail"][:600]))
     return bool(acc.violations)
